@@ -196,11 +196,11 @@ Proof.
       unfold hb_changed in Hr1. rewrite ER in Hr1. change (hb_resolve_offset 10000 (ss_offset (x_hb (get_devx r3 j)))) with 10000 in Hr1.
       apply orb_false_iff in Hr1. destruct Hr1 as [P1 P2]. apply negb_false_iff in P1, P2. apply Z.eqb_eq in P1, P2.
       exists (ss_next (x_hb (get_devx r3 j))). split; [|apply Z.eqb_neq; exact Hr2].
-      destruct (x_hb (get_devx r3 j)) as [a b c']. cbn in *. subst. reflexivity. }
+      destruct (x_hb (get_devx r3 j)) as [a b c']. cbn [ss_period ss_offset ss_next] in *. rewrite P1, P2. reflexivity. }
   destruct A4 as (nx & A4 & Hnx).
   destruct (R5 j Hj) as [_ R6]. rewrite (R6 ltac:(rewrite C1 in *; rewrite C2, L3 in Hj; lia)).
   unfold devx_with_hb, resync_hb. cbn [x_hb]. rewrite A4. cbn [ss_next ss_period].
   destruct (Z.eqb_spec nx ss_disabled) as [|_]; [contradiction|].
-  change (c_DefaultHeartbeatInterval =? 0) with false. cbn match. rewrite C6. apply update_at_sync. exact Hsync.
+  change (c_DefaultHeartbeatInterval =? 0) with false. cbv iota. rewrite ?C6, ?C3. apply update_at_sync. exact Hsync.
 Qed.
 Print Assumptions hb_open_resync.
